@@ -1030,6 +1030,7 @@ func referencedObject(info *types.Info, id *ast.Ident) types.Object {
 // violating Go visibility rules.
 func accessibleFrom(info *types.Info, node ast.Node, wantPkg string) error {
 	var unexportError error
+	start, end := node.Pos(), node.End()
 	ast.Inspect(node, func(node ast.Node) bool {
 		if unexportError != nil {
 			return false
@@ -1065,6 +1066,11 @@ func accessibleFrom(info *types.Info, node ast.Node, wantPkg string) error {
 		}
 		if _, ok := obj.(*types.PkgName); ok {
 			// Local package names are fine, since we can just reimport them.
+			return true
+		}
+		if pos := obj.Pos(); start <= pos && pos < end {
+			// Declared by the expression itself (a parameter of a function
+			// type, a field of a struct type, ...): it moves with it.
 			return true
 		}
 		if pkg := obj.Pkg(); pkg != nil {
